@@ -174,6 +174,24 @@ def run_case(c):
             labels.append("start-record")
     if len(paths) >= 2:
         labels.append("images>=2")
+    # the hash embedded in authorization messages follows the image given, also when the output
+    # file already holds an authorization written for another image
+    import json as _json
+    auth_path = os.path.join(d, "authorization.json")
+    for i, (p, hsh) in enumerate(zip(paths, hashes)):
+        code, out = run_main(signapp, ["signapp.py", "message", "-a", p, "-i", str(i + 1), "-o",
+                                       auth_path])
+        if code != 0:
+            raise Violation("signapp-message-failed", "image %d: exit %r: %s" % (i, code,
+                                                                               out[-300:]))
+        doc = _json.load(open(auth_path))
+        if doc.get("signer") != {"hash": hsh.hex(), "iteration": i + 1}:
+            raise Violation("authorization-embeds-other-hash", "image %d hashes to %s, the "
+                            "authorization written for it holds %r" % (i, hsh.hex(),
+                                                                       doc.get("signer")))
+        code, out = run_main(signapp, ["signapp.py", "message", "-a", p, "-i", str(i + 1)])
+        if code != 0 or ("RSK_powHSM_signer_%s_iteration_%d" % (hsh.hex(), i + 1)) not in out:
+            raise Violation("authorization-message-text", "image %d: %r" % (i, out[-300:]))
     pubs = []
     for run in (1, 2):
         for p in paths:
